@@ -91,4 +91,21 @@ def emitNode {α β : Type} (n : NodeIn α β) : NodeOut α β :=
 /-- `Node.opset_req`: one requirement `(domain, version)`. -/
 def opsetReq {α β : Type} (n : NodeIn α β) : String × Nat := (n.domain, n.version)
 
+/-! ## the source this model was written against (tie G, compared with `Generated/AdaptAttrInventory.lean`)
+
+`flatten` = `BaseVars._flatten/__iter__`; `len` = `BaseVars.__len__` (one per *flattened* entry, not per
+declared field); `emitSlotsCustom` uses `Node.min_input/min_output = len(self.inputs/outputs)`, `emitSlots`
+`StandardNode.min_input/min_output = schema.min_*`; `trimRev` = the two popping loops of `Node.to_onnx`.
+(`self` kept, other names alpha-renamed by the translator.) -/
+def coveredSlotting : List (String × String × List String) := [
+  ("_fields.py", "BaseVars._flatten", ["for v0, v1 in self.__dict__.items():\n    if v1 is None or isinstance(v1, Var):\n        yield (v0, v1)\n    else:\n        yield from ((f'{v0}_{v2}', v3) for v2, v3 in enumerate(v1))"]),
+  ("_fields.py", "BaseVars.__iter__", ["yield from (v1 for v0, v1 in self._flatten())"]),
+  ("_fields.py", "BaseVars.__len__", ["return sum((1 for v0 in self))"]),
+  ("_node.py", "Node.min_input", ["return len(self.inputs)"]),
+  ("_node.py", "Node.min_output", ["return len(self.outputs)"]),
+  ("_standard.py", "StandardNode.min_input", ["return self.schema.min_input"]),
+  ("_standard.py", "StandardNode.min_output", ["return self.schema.min_output"]),
+  ("_node.py", "Node.to_onnx:<while loops>", ["while len(v3) > self.min_input and (not v3[-1]):\n    v3.pop()", "while len(v4) > self.min_output and (not v4[-1]):\n    v4.pop()"])
+]
+
 end Emit
